@@ -492,7 +492,7 @@ def handle_pairs(ctx, res, scenarios, results, tag, seen, max_shrink=2):
                     'key': {'oracle': 'failing-port', 'rule': spair['diff']['observable'][4:],
                             'fault_sites': '+'.join(fault_sites(small))},
                     'what': 'the failing port itself does not keep its last good value / is not retried after 10 s / does not '
-                            'recover (rule "%s")' % spair['diff']['observable'][4:],
+                            'recover / a port stops following its expression (rule "%s")' % spair['diff']['observable'][4:],
                     'case': small, 'expected': 'last value kept on error/skip; not read for 10 s after a read error, read at the '
                                                'first pass after that; driver value taken when the read succeeds',
                     'observed': spair['diff'],
